@@ -161,6 +161,8 @@ def g_c13(rng, tier):
         c = gen.gen_cf_case(rng, kinds=["greedy", "ucb", "softmax", "thompson", "popularity"], max_ops=10, warm=True)
     else:
         c = gen.gen_ctx_case(rng, nps=["none"], lps=gen.LIN_KINDS, max_ops=8, warm=True)
+    if rng.random() < 0.15:
+        c["label"] = "tenths"        # float labels, decisions partly as single precision arrays
     # make sure there is at least one warm start after training
     import gen as G
     arms_now = list(c["arms"])
